@@ -258,7 +258,7 @@ class MultitaskMultivariateNormal(MultivariateNormal):
                     "of self.mean. Expected ...{} but got {}".format(mean_shape, base_sample_shape)
                 )
             sample_shape = base_samples.shape[: -self.mean.ndimension()]
-            base_samples = base_samples.view(*sample_shape, *self.loc.shape)
+            base_samples = base_samples.reshape(*sample_shape, *self.loc.shape)
 
         samples = super().rsample(sample_shape=sample_shape, base_samples=base_samples)
         if not self._interleaved:
